@@ -395,7 +395,7 @@ def unwrap_doc(p):
         elif kind == 'pending':
             tpl += [g(f'b{j}_i', 'ind'), O('t', PT), "\n", g(f'b{j}_t', 'nb'), "z\n", g(f'b{j}_j', 'ind'), C('t'), "\n"]
         else:
-            tpl += [g(f'b{j}_i', 'ind'), "L%d" % j, g(f'b{j}_t', 'nb'), "\n"]
+            tpl += [g(f'b{j}_i', 'ind'), g(f'b{j}_s', 'nb'), "L%d" % j, g(f'b{j}_t', 'nb'), "\n"]
     tpl += [g('ctag_i', 'ind'), C(p.get('tag', 'm'))]
     if p.get('post', 1):
         tpl += ["\n", g('post_i', 'ind'), "B", g('post_t', 'nb')]
@@ -437,7 +437,7 @@ def c11_jobs(tier, seed):
     rnd = random.Random(seed + 5)
     jobs = []
     kmax = 4 if tier == 'quick' else 6
-    hole_sets = [dict(tag_i=2, ctag_i=1, b0_i=2), dict(b0_t=2, b1_t=1), dict(pre_t=2, post_i=2), dict(b1_i=2, b2_i=2, b0_i=1), dict(b1_i=2, b2_t=1), dict(tag_i=1, b1_i=3, b2_i=1, b3_t=1)]
+    hole_sets = [dict(tag_i=2, ctag_i=1, b0_i=2), dict(b0_t=2, b1_t=1), dict(pre_t=2, post_i=2), dict(b1_i=2, b2_i=2, b0_i=1), dict(b1_i=2, b2_t=1), dict(tag_i=1, b1_i=3, b2_i=1, b3_t=1), dict(b1_i=2, b1_s=3), dict(b1_i=2, b2_s=2, b2_i=1)]
     if tier != 'quick':
         hole_sets += [dict(tag_i=2, b0_i=2, b1_i=2, b2_i=2), dict(tag_i=1, ctag_i=2, b1_t=2, b2_i=2), dict(pre_i=2, tag_i=2, ctag_i=2, post_i=2),
                       dict(b0_i=3, b1_i=3, b2_t=2)]
@@ -452,6 +452,9 @@ def c11_jobs(tier, seed):
                     (4, {'2': 'blank'})]:
         for hs in hole_sets[:3]:
             jobs.append(dict(harness='c11_unwrap', label=f'unwrap k={k} body={body} holes={hs}', params=dict(k=k, body=body, holes=hs)))
+    for k in (2, 3, 4):   # the closing tag is the very last thing in the document, multi-byte text before it
+        jobs.append(dict(harness='c11_unwrap', label=f'unwrap k={k} closing tag at end of input, multi-byte text', params=dict(k=k, post=0, final_nl=0, holes=dict(b1_t=3, pre_t=3, ctag_i=1))))
+        jobs.append(dict(harness='c11_unwrap', label=f'unwrap k={k} closing tag at end of input', params=dict(k=k, post=0, final_nl=0, holes=dict(b0_t=2, ctag_i=2))))
     for tag, attrs in (('t', RT + ' unwrap-block'), ('m', PN + ' unwrap-block')):
         jobs.append(dict(harness='c11_unwrap', label=f'unwrap k=3 tag={tag} {attrs}', params=dict(k=3, tag=tag, attrs=attrs, holes=hole_sets[0])))
     return jobs
@@ -630,7 +633,10 @@ def c12_doc(p):
     tpl = []
     for i in range(p.get('pre', 1)):
         tpl += [f(f'pre{i}'), g(f'pre{i}'), "A%d\n" % i]
-    tpl += [f('tag'), g('tag'), O('m', RX + ' unwrap-block'), "\n", f('w1'), g('w1'), "{\n"]
+    tpl += [f('tag'), g('tag'), O('m', RX + ' unwrap-block'), "\n", f('w1'), g('w1'), "{"]
+    if p.get('w1_child'):   # a removable inline element on the opening wrapper line
+        tpl += [" ", O('t', RT), "old();", C('t')]
+    tpl += ["\n"]
     for j, kind in enumerate(p['body']):
         if kind == 'code':
             tpl += [f(f'b{j}'), g(f'b{j}'), g(f'b{j}t', 'nb'), "L%d\n" % j]
@@ -756,6 +762,18 @@ def c12_jobs(tier, seed):
                 fx[f'b{j}i'] = fx[f'b{j}'] + '  '
             for hs in (dict(tag=1, b0=2), dict(b1=2, b1i=2, b1k=1), dict(b0=1, b0i=2, b0w=1, b2=2)):
                 J(f'dedent body={body} fixed={fname} holes={hs}', fixed=fx, holes=hs, body=body)
+            if 'unwrap' in body or 'ready' in body:
+                J(f'dedent body={body} fixed={fname} removable element on the opening wrapper line', fixed=fx, holes=dict(b0=1, b2=2) if len(body) > 2 else dict(b0=1), body=body, w1_child=1)
+    for fname, fixed in (('2sp', ind2), ('nested2sp', ind_nested)):
+        fx = dict(fixed)
+        for j in range(4):
+            fx.setdefault(f'b{j}', fixed.get('b0', ''))
+            fx[f'b{j}i'] = fx[f'b{j}'] + '  '
+        fx['b2'] = fx['b0'] + '    '
+        fx['b3'] = fx['b0'] + '  '
+        J(f'dedent inner block then deeper lines, fixed={fname}, removable element on the opening wrapper line', fixed=fx, holes=dict(b2=1, b3=1),
+          body=['code', 'unwrap', 'code', 'code'], w1_child=1)
+        J(f'dedent inner block then deeper lines, fixed={fname}', fixed=fx, holes=dict(b2=2, b3=1, b1k=1), body=['code', 'unwrap', 'code', 'code'])
     return jobs
 
 
@@ -766,7 +784,7 @@ def c13_doc(p):
     tpl = []
     if p.get('parent'):
         tpl += [O('m', PN), "\n"]
-    tpl += [g('a_i'), g('a_t', 'nb'), "A\n"]
+    tpl += [g('a_i'), g('a_t', 'nb'), "" if p.get('pure') else "A", "\n"]
     for i in range(p['b']):
         tpl += [g(f'bl{i}'), "\n"]
     tpl += [g('tag_i'), O('m', RX), "\n", g('c_i'), "x", g('c_t', 'nb'), "\n"]
@@ -782,7 +800,7 @@ def c13_doc(p):
         tpl += [g('tag2_i'), O('t', RT), "\n", "y\n", g('ctag2_i'), C('t'), "\n"]
         for i in range(p.get('a2', 0)):
             tpl += [g(f'a2l{i}'), "\n"]
-    tpl += [g('z_i'), "B", g('z_t', 'nb')]
+    tpl += [g('z_i'), "" if p.get('pure') else "B", g('z_t', 'nb')]
     if p.get('final_nl', 1):
         tpl += ["\n"]
     if p.get('parent'):
@@ -818,21 +836,19 @@ def c13_block(ctx, p):
     got = [l for l in got_all if B.strip(l)]
     ctx.check(lines_equal(got, in_lines), f'non-blank output lines {show_lines(got)} != surviving input lines {show_lines(in_lines)}', 'line-not-intact')
     # 2. blank-line residue between the neighbours of each removed block
-    def blanks_between(x, y):
-        """number of whitespace-only lines in the output between the lines with text x.. and y.."""
+    def blanks_between(k):
+        """whitespace-only lines in the output between the k-th and (k+1)-th non-blank line"""
         idx = [i for i, l in enumerate(got_all) if B.strip(l)]
-        names = [B.strip(got_all[i]) for i in idx]
-        ix = next(i for i, n_ in zip(idx, names) if n_ and isinstance(n_[-1 if x == 'A' else 0], int) and chr(n_[-1] if x == 'A' else n_[0]) == x)
-        iy = next(i for i, n_ in zip(idx, names) if n_ and isinstance(n_[0], int) and chr(n_[0]) == y)
-        return iy - ix - 1
+        return idx[k + 1] - idx[k] - 1
+    base_k = 1 if p.get('parent') else 0
     first_next = 'M' if p.get('second') else 'B'
     exp1 = a + b - (1 if a > 0 and b > 0 else 0)
-    n1 = blanks_between('A', first_next)
+    n1 = blanks_between(base_k)
     ctx.check(n1 == exp1, f'{n1} blank lines remain around the removed block, expected a+b-[a>0 and b>0] = {exp1} (b={b} before, a={a} after)', 'blank-line-residue')
     if p.get('second'):
         a2, b2 = p.get('a2', 0), p.get('b2', 0)
         exp2 = a2 + b2 - (1 if a2 > 0 and b2 > 0 else 0)
-        n2 = blanks_between('M', 'B')
+        n2 = blanks_between(base_k + 1)
         ctx.check(n2 == exp2, f'{n2} blank lines remain around the second removed block, expected {exp2}', 'blank-line-residue')
 
 
@@ -850,6 +866,9 @@ def c13_jobs(tier, seed):
                 J(f'block b={b} a={a} holes={hs}', a=a, b=b, holes=hs)
     for a, b, a2, b2 in [(0, 0, 0, 0), (1, 1, 1, 1), (0, 1, 1, 0), (2, 0, 0, 2), (1, 2, 2, 1)]:
         J(f'two blocks b={b} a={a} b2={b2} a2={a2}', a=a, b=b, a2=a2, b2=b2, second=1, holes=dict(tag_i=1, tag2_i=1, m_i=2, al0=1))
+    for a, b in [(0, 0), (1, 1), (0, 1), (1, 0)]:   # neighbour lines made of two free bytes only (e.g. one two-byte character)
+        J(f'neighbour lines are two free bytes, b={b} a={a}', a=a, b=b, pure=1, holes=dict(a_t=2, z_t=2, a_i=1, z_i=1))
+        J(f'neighbour lines are four free bytes, b={b} a={a}', a=a, b=b, pure=1, holes=dict(a_t=4, z_t=4))
     for a, b in [(0, 0), (1, 1), (2, 1), (0, 2)]:
         J(f'nested ready block b={b} a={a}', a=a, b=b, inner=1, holes=dict(tag_i=1, in_i=2, cin_i=1))
         J(f'pending parent b={b} a={a}', a=a, b=b, parent=1, holes=dict(tag_i=2, a_i=2, z_i=1))
@@ -897,6 +916,8 @@ HIST = {
     'unwrap-short-body-with-ready-child': ["A\n", O('t', E2 + ' unwrap-block'), "\n", H(1, 'ind'), O('t', E1), "old();", C('t'), "\n", C('t'), "\nB", H(1, 'ws')],
     'unwrap-end-tag-shares-line': ["A\n", O('t', E2 + ' unwrap-block'), "\n{\n", H(1, 'ind'), "k;\n} ", O('t', E1), "x", C('t'), H(1, 'sp'), C('t'), "\nB\n"],
     'unwrap-end-tag-line-has-inner-element': ["A\n", O('t', E2 + ' unwrap-block'), "\nif {\n", H(1, 'ind'), "k;\n}\n", O('t', E1), H(1, 'sp'), "x", C('t'), H(1, 'sp'), C('t'), "\nB\n"],
+    'child-ends-on-closing-brace-line': ["A\n", O('t', E2 + ' unwrap-block'), "\nif {\n", H(1, 'ind'), "k;\n", O('t', E1), "\nold;\n", H(1, 'ind'), C('t'), " }\n", C('t'), "\nT1", H(1, 'nb'), "\nT2\n"],
+    'child-ends-on-closing-brace-line-both-expired': ["A\n", O('t', E1 + ' unwrap-block'), "\nif {\n  k;\n", O('t', E1), "\nold;\n", C('t'), H(1, 'sp'), "}\n", C('t'), "\nT1\nT2", H(1, 'nb'), "\n"],
     'unwrap-start-tag-line-has-inner-element': ["A\n", O('t', E2 + ' unwrap-block'), H(1, 'sp'), O('t', E1), "x", C('t'), "\nif {\n", H(1, 'ind'), "k;\n}\n", C('t'), "\nB\n"],
     'unwrap-start-tag-shares-line': ["A\n", O('t', E1), "x", C('t'), H(1, 'sp'), O('t', E2 + ' unwrap-block'), "\n{\n", H(1, 'ind'), "k;\n}\n", C('t'), "\nB\n"],
     'markers-chain': ["A\n", O('m', "name='x'"), "\none\n", C('m'), "\n", H(2, 'ws'), O('m', "name='y'"), "\ntwo", H(1), "\n", C('m'), "\n", O('m', "name='z'"), "\nthree\n", C('m'), "\nB\n"],
